@@ -784,13 +784,33 @@ def guards_of(body, sink_bb):
       continue
     live, dead = [], []
     for lab, tgt in edges:
-      if body.reaches(tgt, sink_bb):
+      # reachability that does not come back through the guard itself: inside a loop both edges
+      # trivially reach the sink of a later iteration, which is a new evaluation of the guard
+      if _reaches_avoiding(body, tgt, sink_bb, g):
         live.append(lab)
       else:
         dead.append(lab)
     if dead and live:
       out.append(Guard(body, g, live, dead))
   return out
+
+
+def _reaches_avoiding(body, a, b, avoid_bb):
+  if a == avoid_bb:
+    return False
+  if not body.reaches(a, b):
+    return False
+  seen = {a}
+  work = [a]
+  while work:
+    x = work.pop()
+    if x == b:
+      return True
+    for s in body.succ(x):
+      if s not in seen and s != avoid_bb:
+        seen.add(s)
+        work.append(s)
+  return False
 
 
 CMP_FLIP = {'Lt': 'Gt', 'Le': 'Ge', 'Gt': 'Lt', 'Ge': 'Le', 'Eq': 'Eq', 'Ne': 'Ne'}
